@@ -369,6 +369,36 @@ mod tests {
     }
 
     #[test]
+    fn error_in_trap_action_propagates_its_exit_status() {
+        // A syntax error and an expansion error in a trap action
+        for action in ["echo; fi", "echo ${unset_variable?}"] {
+            let (mut env, system) = env_with_sigint_trap();
+            env.traps
+                .set_action(
+                    &env.system,
+                    SIGUSR1,
+                    Action::Command(action.into()),
+                    Location::dummy(""),
+                    false,
+                )
+                .now_or_never()
+                .unwrap()
+                .unwrap();
+            raise_signal(&system, SIGUSR1);
+            env.exit_status = ExitStatus(0);
+            let result = run_traps_for_caught_signals(&mut env)
+                .now_or_never()
+                .unwrap();
+            assert_eq!(
+                result,
+                Break(Divert::Interrupt(Some(ExitStatus::ERROR))),
+                "action: {action:?}"
+            );
+            assert_eq!(env.exit_status, ExitStatus::ERROR, "action: {action:?}");
+        }
+    }
+
+    #[test]
     fn no_trap_actions_performed_if_interrupted_by_sigint() {
         let (mut env, system) = env_with_echo();
         env.builtins.insert("exit", exit_builtin());
